@@ -16,7 +16,7 @@ numerics of impose_bounds / unique.
 import ast
 
 from ..core import rule
-from ..srcmodel import AnalysisError, walk_no_nested, unparse, norm_stmt
+from ..srcmodel import AnalysisError, walk_no_nested, unparse, norm_stmt, parent
 from .. import terms as T
 from .. import siblings as SB
 from .common import *
@@ -62,6 +62,20 @@ def index_mask_idiom(ctx):
         good = len(a) == 2 and unparse(a[0]) == 'mask' and isinstance(a[1], ast.Tuple) and [unparse(e) for e in a[1].elts] == [orig, trans]
         ctx.check(good, name + '#choose', 'choose(mask, (%s, %s)): unselected entries keep the original' % (orig, trans),
                   '%s combines original and transformed values as %s' % (name, unparse(ch[0])), f, ch[0])
+        # nothing lossy may be applied to the *whole* vector after the selection: a cast to a caller-selectable type
+        # (astype(int)) would also change the unselected entries
+        par = parent(ch[0])
+        cast = None
+        while par is not None and not isinstance(par, ast.stmt):
+            if isinstance(par, ast.Call) and isinstance(par.func, ast.Attribute) and par.func.attr == 'astype':
+                tgt_t = unparse(par.args[0]) if par.args else ''
+                if tgt_t not in ('float', "'float64'", 'float64', "'float'"):
+                    cast = par
+            par = parent(par)
+        ctx.check(cast is None, name + '#whole-vector-cast', 'the selected result is not cast as a whole (unselected entries stay as given)',
+                  '%s casts the whole vector with .astype(%s) after the selection: unselected entries are truncated too when the type is int'
+                  % (name, unparse(cast.args[0]) if cast is not None and cast.args else ''), f, cast if cast is not None else ch[0],
+                  statement='choose(...).astype(%s)' % (unparse(cast.args[0]) if cast is not None and cast.args else ''))
 
 
 @rule('C16.b', min_instances=5)
@@ -215,3 +229,18 @@ def numpy_reductions_get_arrays(ctx):
     """resolved callees: no numpy reduction reachable from a constraint transform is handed a generator expression (`from numpy import sum` shadows the builtin in constraints.py; numpy.sum(<generator>) raises, so the transform would fail on every input)"""
     from . import npcalls
     npcalls.check_closure(ctx, C16_ENTRIES, min_sites=3)
+
+
+@rule('C16.g', min_instances=3)
+def pinning_tracking_and_normalisation(ctx):
+    """impose_at stores the target itself at the selected in-range indices and impose_as copies x[i] into each tracked partner and adds the offset once per tracked index, both on a copy (shared with C11.f); normalized() reaches its total through measures.normalize, which keeps its confirmed scaling (weights / norm * mass with the zero-sum handling; shared with C18.e)"""
+    from .c11 import exact_imposition
+    exact_imposition(ctx)
+    from .c18_refs import REFS
+    a = 'mystic.math.measures:normalize'
+    f = ctx.func(a)
+    got = SB.summary(f.node, strict_casts=True)
+    want = SB.summary_of_source(REFS[a], strict_casts=True)
+    ctx.stats['terms_compared'] += len(got)
+    ctx.check(got == want, 'normalize', 'weights / norm * mass, zero-sum handling',
+              'normalize (behind the normalized() constraint) differs from its definition: %s' % SB.diff(got, want), f, f.node)
